@@ -8,7 +8,12 @@ EXPECTED_MISSES = {"C20-A": "the block-scanning cursor of the connector is outsi
 WT, OUT = "/tmp/selfwt", "/tmp/selfout"
 def sh(cmd, cwd=None, env=ENV):
     return subprocess.run(cmd, shell=True, capture_output=True, text=True, env=env, cwd=cwd)
-ids = sorted(d for d in os.listdir("/verif/seeded") if os.path.isfile(f"/verif/seeded/{d}/patch.diff"))
+DIRS = {}
+for base in ("/verif/seeded", "/verif/canaries"):   # canaries: the framework author's own must-fail changes
+    for d in sorted(os.listdir(base)):
+        if os.path.isfile(f"{base}/{d}/patch.diff"):
+            DIRS[d] = f"{base}/{d}"
+ids = sorted(DIRS)
 if len(sys.argv) > 1:
     ids = [i for i in ids if i in sys.argv[1:]]
 claimed = {c["property_id"] for c in json.load(open("/verif/MANIFEST.json"))["checks"]}
@@ -17,13 +22,13 @@ shutil.rmtree(WT, ignore_errors=True)
 assert sh(f"git -C /repo worktree add -q --detach {WT} HEAD").returncode == 0
 bad = 0
 for mid in ids:
-    meta = json.load(open(f"/verif/seeded/{mid}/meta.json"))
+    meta = json.load(open(f"{DIRS[mid]}/meta.json"))
     prop = meta["property"]
     if meta.get("status_at_head", "").startswith("NOT CONFIRMED") or prop not in claimed:
         print(f"{mid}: skipped ({'not confirmed at HEAD' if prop in claimed else 'property not claimed'})")
         continue
     sh("git checkout -q -- . && git clean -fdq", cwd=WT)
-    if sh(f"git apply /verif/seeded/{mid}/patch.diff", cwd=WT).returncode != 0:
+    if sh(f"git apply {DIRS[mid]}/patch.diff", cwd=WT).returncode != 0:
         print(f"{mid}: PATCH DOES NOT APPLY"); bad += 1; continue
     c = sh(f"/verif/bin/govc check -prop {prop} -no-evidence", env=dict(ENV, GOVC_REPO=WT, GOVC_OUT=OUT))
     viol = [ln.split("obligation=")[1].split(" status=")[0] for ln in c.stdout.splitlines() if ln.startswith("VIOLATION")]
